@@ -102,6 +102,17 @@ def once_table(ctx) -> None:
                 ctx.check(good, 'C10.once-alias', fake, f'alias {alias!r} -> {target}', node, key=f'alias {alias}')
                 seen[alias] = target
     ctx.floor('C10.once-alias-sets', nsets, 3)
+    # each member is returned exactly under "a string, lower-cased, member of its alias set"; anything else falls through
+    v = fake.param_names[1]
+    rets = [r for r in core.walk_local(fake.node) if isinstance(r, ast.Return) and (core.dotted(r.value) or '').split('.')[-1] in STEMS]
+    for r in rets:
+        g = cfg.cguards(r, fake.node)
+        ok = len(g) == 2 and (f'isinstance({v}, str)', True) in g and any(t.startswith(f'{v} in ') and pol for t, pol in g)
+        ctx.check(ok, 'C10.once-alias', fake, f'{core.src(r.value)} is returned for the strings of its own alias set only (guards {g})', r, key=f'alias-guard:{core.src(r.value)}')
+    low = [a for a in core.walk_local(fake.node) if isinstance(a, ast.Assign) and core.src(a.targets[0]) == v]
+    ctx.check(len(low) == 1 and core.src(low[0].value) == f'{v}.lower()' and all(r.lineno > low[0].lineno for r in rets), 'C10.once-alias', fake, 'the spelling is matched case-insensitively', fake.node, key='alias:lower')
+    last = fake.body[-1]
+    ctx.check(isinstance(last, ast.Return) and core.src(last.value) == f'super()._missing_({v})' and not cfg.cguards(last, fake.node), 'C10.once-alias', fake, 'an unknown spelling falls through to the enum default (ValueError)', last, key='alias:fallthrough')
 
 
 def where_construction(ctx, tenv) -> None:
